@@ -13,5 +13,11 @@ BadOf(i, ev) ==
     { [prop |-> "C05", line |-> i, fn |-> n, Z |-> ev.Z, E |-> FStr(ev.E), theta |-> FStr(ev.th), phi |-> FStr(ev.ph), got |-> [ok |-> Ok(ev.r, n), v |-> FStr(V(ev.r, n))], want |-> Show(WantA(ev, n))] :
       n \in { n \in AggregatesA : ~Agree(WantA(ev, n), Ok(ev.r, n), V(ev.r, n)) } }
   ELSE {[prop |-> "C05", line |-> i, why |-> "unexpected event"]}
-Judged == JudgedWith(BadOf)
+\* "instead of returning a partial sum" also holds for a caller who passes no error slot: the value must be the same bits (the 0 sentinel on failure)
+NoSlot(i, ev) == IF ev.k \in {"aggE", "aggA"}
+                 THEN { [prop |-> "C05", line |-> i, fn |-> n, Z |-> ev.Z, E |-> FStr(ev.E), why |-> "called without an error slot the function returned something else than with one", with_slot |-> [ok |-> Ok(ev.r, n), v |-> FStr(V(ev.r, n))]] :
+                        n \in { n \in DOMAIN ev.r : ev.r[n][3] # 1 } }
+                 ELSE {}
+BadOf2(i, ev) == BadOf(i, ev) \cup NoSlot(i, ev)
+Judged == JudgedWith(BadOf2)
 ============================================================================
